@@ -9,23 +9,34 @@ VARIANTS = {
 K = lambda k: {"t": "key", "k": k}
 
 
-def make(variant, H, W, conc, red, keys=("a", "b", "c")):
+# actions of the other keys: plain key | fork (outputs its left key: the trigger key is never held) | XX (no output at all);
+# keys without an output are not listed in params["others"] (the monitor only sees them as "another key pressed")
+OTHER_ACTIONS = {
+    "key": lambda o: (K(o), o),
+    "fork": lambda o: ({"t": "fork", "left": K(o), "right": K("w"), "trig": ["rctl"]}, o),
+    "xx": lambda o: ({"t": "xx"}, None),
+}
+
+
+def make(variant, H, W, conc, red, keys=("a", "b", "c"), wrap=False, other=("key", "key")):
     th = {"t": "th", "variant": VARIANTS[variant], "tt": W, "ht": H, "tap": K("x"), "hold": K("lsft")}
     if variant.endswith("-timeout"):
         th["timeout"] = K("lctl")
     if variant.endswith("-keys"):
         th["keys"] = ["b"]
     outs = {"b": "y", "c": "z"}
-    layer = {"a": th}
+    okind = {"b": other[0], "c": other[1]}
+    # the documented Linux workaround: (multi f24 (tap-hold ...)) must behave like the bare tap-hold
+    layer = {"a": {"t": "multi", "acs": [K("f24"), th]} if wrap else th}
     for k in keys[1:]:
-        layer[k] = K(outs[k])
+        layer[k], outs[k] = OTHER_ACTIONS[okind[k]](outs[k])
     desc = {"keys": list(keys), "layers": [layer],
             "defcfg": {"rapid-event-delay": red, "concurrent-tap-hold": "yes" if conc else "no"}}
     params = {"k": cfgdesc.code("a"), "H": H, "W": W, "variant": variant,
               "tapK": cfgdesc.code("x"), "holdK": cfgdesc.code("lsft"),
               "toK": cfgdesc.code("lctl") if variant.endswith("-timeout") else cfgdesc.code("lsft"),
               "listed": [cfgdesc.code("b")] if variant.endswith("-keys") else [],
-              "others": [{"c": cfgdesc.code(k), "o": cfgdesc.code(outs[k])} for k in keys[1:]],
+              "others": [{"c": cfgdesc.code(k), "o": cfgdesc.code(outs[k])} for k in keys[1:] if outs[k]],
               "cq": 1 if conc else 0, "red": red}
     custom = []
     if variant == "release-keys":
@@ -48,6 +59,25 @@ def family(tier):
         # except-keys may stay undecided for ever (large age counters): two keys keep the graph small
         keys = ("a", "b") if v == "except-keys" else ("a", "b", "c")
         F.append(("%s_H%d_W%d_%s_r%d" % (v.replace("-", ""), H, W, "cq" if c else "nq", r), make(v, H, W, c, r, keys)))
+        if v == "except-keys":
+            # ... and the same with a key that is NOT in the list (b stays the listed key): "behaves as tap-hold"
+            F.append(("%s_H%d_W%d_%s_r%d_nl" % (v.replace("-", ""), H, W, "cq" if c else "nq", r),
+                      make(v, H, W, c, r, ("a", "c"))))
+    # tap-repress window long enough for: tap, ANOTHER key, re-press + hold, all inside the window.  The other keys
+    # are a plain key / a fork / XX, the tap-hold is bare and wrapped in multi (docs: the f24 workaround).
+    WL = 10
+    # quick: two-key instances (tap-hold key + ONE other key), which keeps the graph near 100 k states with the window counter
+    # (with concurrent-tap-hold a tap needs H >= 3: the key is processed one tick after it arrives)
+    wins = [("default", 3, WL, True, 1, False, ("xx",)), ("default", 3, WL, True, 1, True, ("key",)),
+            ("default", 2, WL, False, 1, True, ("fork",))]
+    if tier != "quick":
+        wins = [(v, 3 if c else 2, WL, c, 1, w, o) for v in ("default", "press", "release") for c in (False, True)
+                for w in (False, True) for o in (("key",), ("xx",), ("fork",))]
+        wins += [("default", 3, WL, True, 1, w, o) for w in (False, True) for o in (("key", "xx"), ("fork", "key"))]
+    for (v, H, W, c, r, w, o) in wins:
+        keys = ("a", "b", "c")[:1 + len(o)]
+        F.append(("%s_H%d_W%d_%s_r%d_%s_%s" % (v.replace("-", ""), H, W, "cq" if c else "nq", r, "multi" if w else "bare",
+                                               "".join(o)), make(v, H, W, c, r, keys, w, tuple(o) + ("key",))))
     return F
 
 
@@ -62,7 +92,10 @@ def run(tier, seed):
     rng = random.Random(seed)
     wd = workdir("c05")
     jobs_random, witness_jobs = [], []
+    only = os.environ.get("C05_ONLY", "")     # development aid: restrict the family to the instances whose name contains it
     for name, (desc, params, custom) in family(tier):
+        if only and only not in name:
+            continue
         kbd = cfgdesc.render_kbd(desc)
         keys = [cfgdesc.code(k) for k in desc["keys"]]
         inst = {"name": "c05_" + name, "kbd": kbd, "keys": keys, "qmax": 3, "custom_th": custom,
@@ -70,13 +103,27 @@ def run(tier, seed):
         if params["variant"] == "except-keys":
             # the key may stay undecided for ever: bound the age counters of the model (state constraint)
             inst["caps"] = {"since": 3 * (params["H"] + params["red"] + 2)}
-        r = mc.check_instance(inst, wd, workers=12, timeout=1200)
+        if params["W"] > params["H"] + 4:
+            # TLC also prints one input history per distinct state in which the tap-hold key has just been re-pressed while
+            # its tap-repress window is open ("re") or was closed by another key / a hold ("fr"): each is continued with
+            # "hold past the timeout, release" and recorded on the real code below
+            inst["extra_defs"] = 'QtwProbe == mon.wk = "" \\/ PrintT(<<"QTW", ToJson([h |-> hist, k |-> mon.wk])>>)'
+            inst["invariants"] = ["StutterProbe", "QtwProbe"]
+            inst["extra_tags"] = ["QTW"]
+        r = mc.check_instance(inst, wd, workers=6, timeout=1200)
         res.add_instance(r)
         if len(res.samples) < 3:
             res.samples.append({"instance": name, "kbd": kbd, "states": r["states"], "edges": r.get("edges")})
         ws = flow.witness_scripts(r["monerr_file"], 30) + flow.witness_scripts(r["panic_file"], 10)
         scripts = [flow.hist_to_script(w["h"], 6) for w in ws] + \
                   [flow.hist_to_script(d["h"], 6) for d in r.get("drift_samples", [])]
+        if r.get("n_qtw"):
+            qw = flow.witness_scripts(r["qtw_file"], 10 ** 9)
+            fr = [w for w in qw if w["k"] == "fr"]
+            re_ = [w for w in qw if w["k"] == "re"]
+            pick = fr[:150] + rng.sample(fr[150:], min(len(fr) - 150, 100) if len(fr) > 150 else 0) + re_[:60]
+            res.samples.append({"instance": name, "tap_repress_witnesses": {"fr": len(fr), "re": len(re_), "recorded": len(pick)}})
+            scripts += [flow.hist_to_script(w["h"], params["H"] + 3) + [["u", params["k"]], ["t", 12]] for w in pick]
         if scripts:
             witness_jobs.append({"cfg": kbd, "params": params, "tag": "w:" + name, "scripts": scripts})
         n = 30 if tier == "quick" else 200
